@@ -256,3 +256,22 @@ def lockset_at(eng, f, entry, st):
     res = eng.analyze(f, entry)
     p = f.cfg.point_of(st['i'])
     return res.get(p)
+
+
+def lexical_guards(f, sid):
+    """(cond stmt id, 'then'|'else'|'loop') of the if/loop statements lexically enclosing sid, innermost first.
+    Unlike CFG guards this keeps `a || b` conditions whole."""
+    out = []
+    cur = sid
+    for a in f.ancestors(sid):
+        st = f.stmts[a]
+        if st['k'] == 'IfStmt':
+            if cur == st.get('then') or cur in set(f.walk(st.get('then'))):
+                out.append((st['cond'], 'then'))
+            elif st.get('else') is not None and (cur == st['else'] or cur in set(f.walk(st['else']))):
+                out.append((st['cond'], 'else'))
+        elif st['k'] in ('WhileStmt', 'ForStmt') and st.get('cond') is not None and st.get('body') is not None:
+            if cur == st['body'] or cur in set(f.walk(st['body'])):
+                out.append((st['cond'], 'loop'))
+        cur = a
+    return out
